@@ -185,4 +185,6 @@ def run(ctx):
     rule_mass_parameter(ctx, callers)
     rule_solver_homogeneity(ctx)
     rule_loops(ctx)
+    from . import c02
+    c02.rule_pair_domains(ctx)     # R02.8: the term solved by the Kepler step (gravity_ignore_terms) is left out of the kick exactly once
     ctx.not_decided.append('exactness of the propagation to rounding error; correctness of the Newton/quartic/bisection selection; NaN freedom for all finite input; agreement of the AVX512 solver with the scalar one')
